@@ -369,7 +369,7 @@ def c16(tier, seed):
         shadow.build_shadow(sid)
         plan.append((sid, {}, fam))
     for i, (cfg_id, extra, fam) in enumerate(plan):
-        kw = dict(keys=10 if thorough else 3)
+        kw = dict(keys=10 if thorough else 3, lens="all" if thorough else "few")
         if fam:
             kw["family"] = fam
         kw.update(extra)
@@ -382,7 +382,7 @@ def c16(tier, seed):
     c.configs.add("threefish-nocipher-z")
     evs += renumber(tfe, 90 * 10_000_000)
     # control: without the feature the key material must survive the drop (the probe sees it)
-    evs += c.drive("feat-min", "zeroize", keys=3, family="AES,DES,Kuznyechik,Blowfish,Threefish,RC5")
+    evs += c.drive("feat-min", "zeroize", keys=3, lens="few", family="AES,DES,Kuznyechik,Blowfish,Threefish,RC5,Twofish")
     c.validate(evs, API_MOD, API_CFG, "zero", what="erasure on drop", shards=14)
     rule = ("zimg events: storage image before/after drop_in_place for every type x route {new, clone, From<&Enc>, From<Enc>, clone of "
             "converted} x backend (incl. soft union arm) x >= 3 keys x 2 fill patterns x 2 repetitions; TLC classifies offsets: "
